@@ -2,7 +2,7 @@
   COSE_KDF_Context and its parts: the emitted value of a decode result is the decoded value itself.
 -/
 import CosetProofs.Roundtrip.HeaderFixed
-import CosetProofs.Props.C18
+import CosetProofs.ClaimsSpec
 namespace Coset
 open Coset.Props.C18
 
@@ -125,14 +125,17 @@ theorem kdfTail_ok : ∀ (n : Nat) (tail pre : List Value) (acc acc' : List Byte
         exact ⟨h1, bs ++ [b], by simp [h2], by simp [h3]⟩
       | _ => simp [tryAsBytes, typeError] at h
 
-theorem kdf_emit (v : Value) (k : CoseKdfContext) (h : CoseKdfContext.fromValue v = .ok k) : CoseKdfContext.toValue k = .ok v := by
+/-- the shape of an accepted COSE_KDF_Context, slot by slot. -/
+theorem kdf_shape (v : Value) (k : CoseKdfContext) (h : CoseKdfContext.fromValue v = .ok k) :
+    ∃ (x0 x1 x2 x3 : Value) (bs : List Bytes), v = .array ([x0, x1, x2, x3] ++ bs.map Value.bytes) ∧
+      RegLabelPriv.fromValue Reg.algorithm x0 = .ok k.algorithmId ∧ PartyInfo.fromValue x1 = .ok k.partyUInfo ∧
+      PartyInfo.fromValue x2 = .ok k.partyVInfo ∧ SuppPubInfo.fromValue x3 = .ok k.suppPubInfo ∧ k.suppPrivInfo = bs := by
   cases v with
   | array a =>
     simp only [CoseKdfContext.fromValue, tryAsArray, Gen.CoseKdfContext_arityBad] at h
     by_cases h4 : a.length < 4
     · simp [h4] at h
     · simp only [h4, decide_false, Bool.false_eq_true, if_false] at h
-      -- split the array into its four leading elements and the tail
       obtain ⟨x0, x1, x2, x3, tail, rfl⟩ : ∃ x0 x1 x2 x3 tail, a = x0 :: x1 :: x2 :: x3 :: tail := by
         match a, h4 with
         | x0 :: x1 :: x2 :: x3 :: tail, _ => exact ⟨x0, x1, x2, x3, tail, rfl⟩
@@ -162,8 +165,7 @@ theorem kdf_emit (v : Value) (k : CoseKdfContext) (h : CoseKdfContext.fromValue 
               | ok alg =>
                 simp only [hal] at h
                 simp at h; subst h
-                simp [CoseKdfContext.toValue, RegLabelPriv.toValue_eq, RegLabelPriv.value_of_fromValue _ _ _ hal, party_emit _ _ hu, party_emit _ _ hv,
-                  supp_emit _ _ hs, hacc]
+                exact ⟨x0, x1, x2, x3, bs, rfl, hal, hu, hv, hs, by simp [hacc]⟩
               | err e => simp [hal] at h
               | panic q => simp [hal] at h
             | err e => simp [hu] at h
@@ -175,6 +177,11 @@ theorem kdf_emit (v : Value) (k : CoseKdfContext) (h : CoseKdfContext.fromValue 
       | err e => simp [ht] at h
       | panic q => simp [ht] at h
   | _ => simp [CoseKdfContext.fromValue, tryAsArray, typeError] at h
+
+theorem kdf_emit (v : Value) (k : CoseKdfContext) (h : CoseKdfContext.fromValue v = .ok k) : CoseKdfContext.toValue k = .ok v := by
+  obtain ⟨x0, x1, x2, x3, bs, rfl, h0, h1, h2, h3, h4⟩ := kdf_shape v k h
+  simp [CoseKdfContext.toValue, RegLabelPriv.toValue_eq, RegLabelPriv.value_of_fromValue _ _ _ h0, party_emit _ _ h1, party_emit _ _ h2,
+    supp_emit _ _ h3, h4]
 
 theorem party_fixed (v : Value) (p : PartyInfo) (h : PartyInfo.fromValue v = .ok p) : ∃ x, p.toValue = .ok x ∧ PartyInfo.fromValue x = .ok p :=
   ⟨v, party_emit v p h, h⟩
